@@ -25,7 +25,7 @@ META = {
                "thorough": {"members": "same + nested component", "pause step": "0..8"}},
     "outside": profiles.OUTSIDE + ["non-finite numbers", "file-system failures"],
 }
-REQUIRED_COVERS = {"any": ["stage:never", "stage:paused", "stage:forward", "stage:backward", "subproject-task", "refs-checked", "resimulated", "inject:saved", "empty-lists", "resumed-after-restore", "stage:edited"]}
+REQUIRED_COVERS = {"any": ["stage:never", "stage:paused", "stage:forward", "stage:backward", "subproject-task", "refs-checked", "resimulated", "inject:saved", "empty-lists", "resumed-after-restore", "stage:edited", "stage:backward-due"]}
 
 EXCLUDED = {
     "BaseTask": ["parent_workflow", "additional_work_amount", "additional_task_flag", "actual_work_amount"],
@@ -138,6 +138,8 @@ def roundtrip(p, ctx):
             ok, r = ctx.call(M.project.simulate, **kw)
         elif stage == "backward":
             ok, r = ctx.call(M.project.backward_simulate, **kw)
+        elif stage == "backward-due":
+            ok, r = ctx.call(M.project.backward_simulate, considering_due_time_of_tail_tasks=True, **kw)
         elif stage == "edited":
             ok, r = ctx.call(M.project.simulate, **kw)
             if ok:
@@ -337,6 +339,8 @@ def obligations(tier, seed):
     members.append(("prod", fspec, [["w0", 1, 2], ["w1", 1, 2], ["cap0", 0, 2], ["z0", 0, 2]], {"z1": 1, "cap1": 1, "fs0": 1, "fs1": 1}))
     pf = [ob for ob in profiles.p_facility(thorough) if "1wp2f/fsk=all/solof=0/fixf=None/mixed=0" in ob["name"]][0]
     members.append(("pairs", pf["cube"]["spec"], [["w0", 2, 6], ["s00", 1, 2], ["f00", 0, 2], ["f11", 1, 2]], {"w1": 1, "cap": 2, "fa0": -1, "a1": -1}))
+    members.append(("fan", {"tasks": [{"w": "$w0"}, {"w": 1, "due": "$d1"}, {"w": 1, "due": "$d2"}], "edges": [[0, 1, 0], [0, 2, 0]],
+                            "teams": profiles.layout_workers("shared2", 3), "run": {"max_time": 10}}, [["w0", 1, 2], ["d1", 0, 2], ["d2", 0, 2]], {}))
     bare = dict(fspec, idstyle="bare")
     members.append(("prod-bare-ids", bare, [["w0", 1, 2], ["w1", 1, 2], ["cap0", 1, 2]], {"z0": 1, "z1": 1, "cap1": 1, "fs0": 1, "fs1": 1}))
     members.append(("sub-never", {"tasks": [{"w": "$w0"}, {"w": 1, "subproject": True}], "edges": [[0, 1, 0]], "teams": profiles.layout_workers("shared1", 2), "run": {"max_time": 8}},
@@ -344,8 +348,12 @@ def obligations(tier, seed):
     members.append(("sub-configured", {"tasks": [{"w": "$w0"}, {"w": 1, "subproject": True}], "edges": [[0, 1, 0]], "teams": profiles.layout_workers("shared1", 2), "run": {"max_time": 8}},
                     [["w0", 0, 2]], {"configure_sub": True}))
     for mname, spec, params, consts in members:
-        for stage in ("never", "paused", "forward", "backward", "edited"):
+        for stage in ("never", "paused", "forward", "backward", "edited", "backward-due"):
             if stage == "edited" and mname not in ("wf-FS", "prod"):
+                continue
+            if stage == "backward-due" and mname != "fan":
+                continue
+            if mname == "fan" and stage not in ("backward-due", "forward"):
                 continue
             pr = list(params) + ([["k", 0, 8 if thorough else 4]] if stage == "paused" else []) + ([["ie", 0, 3]] if stage == "edited" else [])
             obs.append({"name": "roundtrip/%s/%s" % (mname, stage), "harness": "roundtrip", "cube": dict(consts, spec=spec, stage=stage), "params": pr,
